@@ -27,7 +27,7 @@ ASSUMPTIONS = ['the instant now == expiry is don\'t-care; validity is demanded a
 REQUIRED_REACH = ['intact-roundtrip', 'nonempty-cookie-seen', 'expired-server-side', 'valid-before-expiry', 'tamper:flip-mac',
                   'tamper:flip-payload', 'tamper:truncate', 'tamper:extend', 'tamper:swap', 'tamper:other-key', 'tamper:other-server', 'server-with-a-secret-of-its-own', 'tamper:random',
                   'tamper:non-ascii', 'tamper:bad-b64-mac', 'tamper:bad-b64-value', 'tamper:missing-sep', 'tamper:quotes',
-                  'tamper-rejected', 'expiry:session', 'expiry:never', 'expiry:numeric', 'clients:3']
+                  'tamper-rejected', 'tampered-cookie-then-stored', 'schedules:first-requests', 'first-requests:both-cookies-presented', 'expiry:session', 'expiry:never', 'expiry:numeric', 'clients:3']
 NSHARDS = 16
 KEYS = ['a', 'user', 'k 1', 'é', 'x=y&z', 'list', 'n', '0', 'long' * 10]
 TAMPERS = ['flip-mac', 'flip-payload', 'truncate', 'extend', 'swap', 'other-key', 'other-server', 'random', 'non-ascii', 'bad-b64-mac',
@@ -77,7 +77,7 @@ class World(object):
         from clastic.middleware import cookie as ck
         import secure_cookie.cookie as sc
         self.sh, self.rng = sh, rng
-        self.clock = Clock()
+        self.clock = Clock(1700000000 + rng.pick([0, 0, 0.25, 0.5, 0.75, 0.999]))     # servers do not run on whole seconds
         self._restore = (ck.time, sc.time)
         ck.time = self.clock          # module attribute used as time.time()
         sc.time = self.clock          # bound name used as time()
@@ -157,7 +157,7 @@ class World(object):
             c['jar'] = value
             exp = None
             if self.expiry_kind == 'numeric':
-                exp = int(self.clock.t + self.expiry)
+                exp = self.clock.t + self.expiry        # the moment the cookie falls due, exactly
             c['expires'] = exp
             p = self.payload_of(value)
             if p is not None:
@@ -171,7 +171,7 @@ class World(object):
         c = self.clients[ci]
         step = {'client': ci, 'op': op, 'tamper': tamper, 'sent': sent, 't': self.clock.t}
         self.steps.append(step)
-        what = 'client %d %s%s at t=%d (expiry %s)' % (ci, op, ' with %s cookie' % tamper if tamper else '', self.clock.t, self.expiry_kind)
+        what = 'client %d %s%s at t=%.3f (expiry %s)' % (ci, op, ' with %s cookie' % tamper if tamper else '', self.clock.t, self.expiry_kind)
 
         def bad(key, text):
             sh.violation('C16/' + key, '%s: %s [cookie sent: %r]' % (what, text, (sent or '')[:160]), {'steps': self.steps})
@@ -195,9 +195,11 @@ class World(object):
                 sh.hit('intact-roundtrip')
                 if exp is not None:
                     sh.hit('valid-before-expiry')
-            elif now >= exp + 1:
+            elif now > exp:
+                # past its expiry, by however little: never presented (before it, the cookie format's whole-second
+                # granularity may drop it up to a second early: left open)
                 if seen != {}:
-                    bad('expired-cookie-presented', 'endpoint saw %r although the cookie expired at %d' % (seen, exp))
+                    bad('expired-cookie-presented', 'endpoint saw %r although the cookie fell due at %.3f' % (seen, exp))
                     return None
                 sh.hit('expired-server-side')
         elif sent is None:
@@ -211,7 +213,7 @@ class World(object):
             else:
                 p = self.payload_of(sent)
                 hit = self.issued.get(p) if p is not None else None
-                if hit is None or strict(hit[0]) != strict(seen) or (hit[1] is not None and now >= hit[1] + 1):
+                if hit is None or strict(hit[0]) != strict(seen) or (hit[1] is not None and now > hit[1]):
                     bad('forged-cookie-presented', 'endpoint saw %r from a cookie the server never issued in this form' % (seen,))
                     return None
                 sh.hit('tamper-accepted-same-payload')
@@ -235,6 +237,10 @@ class World(object):
         seen = self.judge(ci, op, sent, None, ex)
         if seen is None:
             return
+        self.finish(ci, op, ex, seen)
+
+    def finish(self, ci, op, ex, seen):
+        """what the handler did to the cookie it was given, and what the client keeps of it"""
         new = dict(seen)
         if op[0] == 'set':
             new[op[1]] = json.loads(json.dumps(op[2]))
@@ -329,6 +335,16 @@ class World(object):
         if value is None or value == base:
             return self.step_normal(ci)
         self.sh.hit('tamper:' + kind)
+        if rng.chance(0.3):
+            # the handler stores something in the very request that carried the bad cookie: the client then owns a
+            # fresh, valid cookie holding (what the server made of the bad one, normally nothing, plus) that
+            op = ['set', rng.pick(KEYS), rand_value(rng)]
+            ex = self.send(ci, op, value)
+            seen = self.judge(ci, op, value, kind, ex)
+            if seen is not None:
+                self.sh.hit('tampered-cookie-then-stored')
+                self.finish(ci, op, ex, seen)
+            return
         ex = self.send(ci, ['read'], value)
         self.judge(ci, ['read'], value, kind, ex)
         # the client keeps its own jar: a later intact request must still work
@@ -337,11 +353,11 @@ class World(object):
         rng = self.rng
         exps = [c['expires'] for c in self.clients if c['expires']]
         if exps and rng.chance(0.8):
-            target = rng.pick(exps) + rng.pick([-1, 1, 1, 30])
+            target = rng.pick(exps) + rng.pick([-1.5, -1, 0.05, 0.2, 0.75, 1, 1, 30])
             if target > self.clock.t:
                 self.clock.t = target
         else:
-            self.clock.t += rng.pick([1, 7, 100, 10 ** 6])
+            self.clock.t += rng.pick([1, 7, 100, 10 ** 6, 0.3, 2.5])
         self.steps.append({'clock': self.clock.t})
 
     def step_replay_stale(self, ci):
@@ -379,11 +395,78 @@ def run_history(sh, rng, length):
         w.close()
 
 
+def first_requests(sh, spec):
+    """The very first requests of a server's life arrive together.  Every single-preemption schedule of two clients that
+    store something at a middleware that was given no key (so it has to come up with one, whenever it does that): afterwards
+    each client's own cookie must present exactly what that client stored."""
+    import os
+    from urllib.parse import quote
+    from clastic import Application, Route, Response
+    from clastic.middleware import cookie as ck
+    from .. import sched
+    from ..common import REPO
+    roots = (os.path.join(REPO, 'clastic') + os.sep, '<sinter generated')
+
+    def ep(request, cookie):
+        before = dict(cookie)
+        who = request.args.get('who')
+        if who:
+            cookie['who'] = who
+        return Response(json.dumps({'before': before}), mimetype='application/json')
+
+    def build():
+        return Application([Route('/c', ep)], middlewares=[ck.SignedCookieMiddleware(expiry=spec.get('expiry', ck.SESSION))])
+
+    def job(app, who, cookie=None):
+        def run():
+            h = {'Cookie': 'clastic_cookie=' + cookie} if cookie else {}
+            return probe.request(app, 'GET', '/c', ('who=' + quote(who)) if who else '', headers=h)
+        return run
+
+    def cookie_of(ex):
+        for sc in ex.header_all('Set-Cookie'):
+            name, _, rest = sc.partition('=')
+            return rest.split(';', 1)[0]
+        return None
+    n_points = sched.count_points(job(build(), 'A'), roots)
+    sh.notes['first-requests'] = 'yield points of one storing request on a fresh application: %d' % n_points
+    for k in range(1, n_points + 1):
+        app = build()
+        s = sched.Scheduler(2, sched.preempt_once(k), roots)
+        res = s.run([job(app, 'alice'), job(app, 'bob')])
+        case = {'first_requests': True, 'k': k, 'expiry': spec.get('expiry')}
+        sh.case(case, nontrivial=bool(s.switches), klass='first-requests')
+        if s.broken:
+            sh.hit('watchdog-fired')
+            continue
+        sh.hit('schedules:first-requests')
+        for (tag, val), who in zip(res, ('alice', 'bob')):
+            if tag != 'ok' or val.exc is not None or val.status != 200:
+                sh.violation('C16/error-response', 'first requests, preemption after %d steps: %s got %s %s'
+                             % (k, who, tag, probe.safe_repr(val.exc if tag == 'ok' else val)[:200]), case)
+                break
+            c = cookie_of(val)
+            ex = job(app, None, c)()
+            seen = json.loads(ex.body.decode('utf8'))['before'] if ex.exc is None and ex.status == 200 else None
+            if seen != {'who': who}:
+                sh.violation('C16/intact-cookie-not-presented', 'two clients stored something in the first two, overlapping requests of a keyless '
+                             'middleware (preemption after %d steps, switches %r); %s then sent its cookie back and the endpoint saw %r'
+                             % (k, s.switches[:3], who, seen), case)
+                break
+        else:
+            sh.hit('first-requests:both-cookies-presented')
+
+
 def plan(tier, seed):
-    return [{'label': 'rand-%d' % i, 'n': 190 if tier == 'quick' else 19000, 'timeout': 7200} for i in range(NSHARDS)]
+    specs = [{'label': 'rand-%d' % i, 'n': 190 if tier == 'quick' else 19000, 'timeout': 7200} for i in range(NSHARDS)]
+    specs.append({'label': 'first-requests-session', 'first_requests': True, 'timeout': 7200})
+    specs.append({'label': 'first-requests-numeric', 'first_requests': True, 'expiry': 3600, 'timeout': 7200})
+    return specs
 
 
 def run_shard(sh, spec):
+    if spec.get('first_requests'):
+        return first_requests(sh, spec)
     for i in range(spec['n']):
         rng = Rng(spec['seed'], PROPERTY, spec['label'], i)
         w = run_history(sh, rng, rng.randint(4, 25))
@@ -393,6 +476,8 @@ def run_shard(sh, spec):
 
 
 def replay(sh, case, spec):
+    if case.get('first_requests'):
+        return first_requests(sh, {'expiry': case.get('expiry')})
     rng = Rng(case['seed'], PROPERTY, case['shard'], case['index'])
     w = run_history(sh, rng, rng.randint(4, 25))
     sh.notes['steps'] = w.steps
